@@ -363,6 +363,20 @@ pub fn generate(seed: u64, thorough: bool, sink: &mut Sink) -> Vec<String> {
       if let Some(b) = emit(&src) { if b.len() < 6000 { cases.push(format!("rt\t{}", hexb(&b))); sink.hit("rt:generated-program"); } } else { sink.hit("rt:generated-program-does-not-compile"); }
     }
   }
+  // hostile counts: a verifying file whose variable-arity instruction declares far more arguments than the stream
+  // holds (the count must not size an allocation)
+  if let Some(base) = emit("x := [1 2 3 4 5]") {
+    if let Ok(pp) = ParsedProgram::from_bytes(&base) {
+      let off = pp.header.instr_off as usize; let len = pp.header.instr_len as usize;
+      for count in [u32::MAX, 0x5000_0000u32, 0x0100_0000, 1000] {
+        let mut body = base[..base.len() - 4].to_vec();
+        // overwrite the start of the instruction stream with a VarArg instruction of that count
+        if len >= 17 { body[off] = 0x60; for i in 0..12 { body[off + 1 + i] = i as u8; } body[off + 13..off + 17].copy_from_slice(&count.to_le_bytes()); }
+        let c = crc32fast::hash(&body); body.extend_from_slice(&c.to_le_bytes());
+        cases.push(format!("load\thostile-section\t{}", hexb(&body))); sink.hit("load:hostile-vararg-count");
+      }
+    }
+  }
   cases.push("instrs\tR:0".into());
   cases.push("instrs\tC:1:2;R:7".into());
   cases.push("instrs\tR:7;C:1:2".into());
